@@ -1304,6 +1304,21 @@ def r_sites(ctx):
                     grown = any(x.kind == 'mutate' for x in defs)
                     if outside and grown and atom[2] == arg:
                         shared.append(c[1])
+            # a fragment that path_matching validated is not filtered again by a test on the graph: path_matching already followed
+            # it through the accessor, and any further graph test on a piece of it (its last window, its junction) has to get every
+            # boundary right (k = 1, the empty deletion fragment, vertex 0) to be sound
+            K_ = ctx.kinds
+            for atom, pol in ctx.conds(f, nd):
+                dep_frag = any(x == arg for x in walk_term(atom))
+                dep_graph = any(K_.kind(x, f) in ('ACC', 'ROW', 'ENTRY') for x in walk_term(atom) if x[0] in ('v', 'sub'))
+                if dep_frag and dep_graph:
+                    # a correct second filter would be harmless, so this is not a witness: whether the filter keeps the fragment of
+                    # the original walk for every k and every fragment length is not decided here
+                    run.undecided('R-SITE', f, 'validated-fragments-all-kept#%d' % n, nd.lineno,
+                               'a fragment returned by path_matching only reaches its site\'s collection when %s: fragments that the '
+                               'saturation repair validated are filtered a second time by a look-up in the accessor computed from a '
+                               'piece of the fragment (for an empty fragment, or k = 1, that piece is not a vertex of the walk)'
+                               % show(atom)[:80])
             run.check(not shared, 'R-SITE', f, 'site-collection-independent#%d' % n, nd.lineno,
                       'a fragment reaches its site\'s collection whatever the other sites produced',
                       "a fragment is dropped when it is already in `%s`, a collection shared by all error sites: a later site "
